@@ -101,7 +101,7 @@ def decode_hp(call):
     parts = [p.split("-") for p in hp.split(",")]
     block = int(parts[0][0])
     order = [int(p[1]) - 1 for p in parts]
-    if alleles is None or len(order) != len(alleles):
+    if alleles is None or len(order) != len(alleles) or sorted(order) != list(range(len(order))):
         return block, None
     hap = [None] * len(order)
     for k, o in enumerate(order):
